@@ -82,11 +82,12 @@ func (g *schemaGenerator) generateReferencedType(t *schemas.Type) (codegen.Type,
 	}
 
 	if t.Ref == "#" {
-		if schemaOutput, ok := g.outputs[g.schema.ID]; ok {
-			if decl, ok := schemaOutput.declsBySchema[t]; ok {
-				if decl != nil {
-					return decl.Type, nil
-				}
+		// The document itself: the root type, which is being generated while its properties are
+		// visited; it is recursive by construction, hence the pointer.
+		if g.schema.ObjectAsType != nil {
+			root := (*schemas.Type)(g.schema.ObjectAsType)
+			if decl, ok := g.output.declsBySchema[root]; ok && decl != nil {
+				return codegen.WrapTypeInPointer(&codegen.NamedType{Decl: decl}), nil
 			}
 		}
 
